@@ -277,9 +277,9 @@ Definition frozen (n0 : nat) (h : heap) : Prop :=
 Definition frozenb (n0 : nat) (h : heap) : bool :=
   forallb (fun ob => o_present ob && (s_cap (o_items ob) =? s_len (o_items ob))) (firstn n0 (h_objs h)).
 
-(* private objects own private arrays *)
+(* private objects with spare capacity own private arrays *)
 Definition priv_ok (n0 a0 : nat) (h : heap) : Prop :=
-  forall o ob, n0 <= o -> get_obj h o = Some ob -> o_present ob = true -> s_cap (o_items ob) = 0 \/ a0 <= s_arr (o_items ob).
+  forall o ob, n0 <= o -> get_obj h o = Some ob -> o_present ob = true -> s_cap (o_items ob) <= s_len (o_items ob) \/ a0 <= s_arr (o_items ob).
 
 Definition fz (n0 a0 : nat) (h : heap) : Prop :=
   frozen n0 h /\ n0 <= nobjs h /\ a0 <= length (h_arrs h) /\ priv_ok n0 a0 h.
